@@ -441,6 +441,9 @@ Qed.
 Lemma ztc_nonneg b : 0 <= ztc b.
 Proof. induction b as [|x r IH]; cbn [ztc]; [lia|]. pose proof (zt_local_nonneg (x :: r)). lia. Qed.
 
+Lemma ztc_nil : ztc [] = 0.
+Proof. reflexivity. Qed.
+
 Lemma ztc_cons x r : ztc (x :: r) = zt_local (x :: r) + ztc r.
 Proof. reflexivity. Qed.
 
@@ -943,7 +946,7 @@ Lemma arr_plain_loop f : payload_spec f -> forall g b acc v rest,
   arr_plain (uvalue f f) g b acc = RValue v rest -> all_bytes b = true ->
   forall p s stp, uctx p -> s_fail s = None -> stp = sStart \/ stp = sCont ->
   exists ts n vt, v = CArr (rev acc ++ map (fun t => cv (value_of t)) ts) /\
-    forallb wf_tree ts = true /\ budget (n + 2) b rest /\ all_bytes rest = true /\
+    forallb wf_tree ts = true /\ budget (n + 3) b rest /\ all_bytes rest = true /\
     reaches (uexec_step (dyn p stp) s b)
             (after_val (uset_vtype p vt) (sadd s (flatten_elems ts ++ [EArrEnd])) rest) n.
 Proof.
@@ -1278,12 +1281,12 @@ Proof.
   - reflexivity.
 Qed.
 
-Lemma typed_close p T st bt : uctx p ->
-  upop_len_state (v_pop (ul_push (hdr p T sCont st bt) 0)) = (uset_vtype p bt, zlen (up_stack p) =? 0).
+Lemma typed_close p T stp st bt : uctx p ->
+  upop_len_state (v_pop (ul_push (hdr p T stp st bt) 0)) = (uset_vtype p bt, zlen (up_stack p) =? 0).
 Proof.
   intros (Hbuf & Hmk & Hcur & Hv). unfold upop_len_state, hdr.
-  replace (v_pop (ul_push (v_push (u_push p (mku T sCont)) st bt) 0))
-    with (ul_push (v_pop (v_push (u_push p (mku T sCont)) st bt)) 0).
+  replace (v_pop (ul_push (v_push (u_push p (mku T stp)) st bt) 0))
+    with (ul_push (v_pop (v_push (u_push p (mku T stp)) st bt)) 0).
   - rewrite vpop_vpush by exact Hv. rewrite lpop_lpush. rewrite push_vtype.
     rewrite upop_state_push by exact Hcur. reflexivity.
   - pdestruct p. destruct (vt =? tFail); [destruct vstk|]; reflexivity.
@@ -1389,3 +1392,1104 @@ Proof.
       eapply (arr_n_nonempty (ubj_payload f t) g (n - 1)); [lia|exact H|].
       intros v0 r0 Hx. pose proof (payload_nonempty _ _ _ _ Hx Hm). lia.
 Qed.
+
+(* ---------- the array payload ---------- *)
+Lemma pl_arr_typed' f t c r2 :
+  ubj_payload (S f) mArrS (mType :: t :: c :: r2) =
+  if negb (is_value_marker t) then RMalformed else
+  if negb (c =? mCount) then RMalformed else
+  match ubj_len r2 with
+  | LTrunc => RTruncated
+  | LBad => RMalformed
+  | LVal n r3 =>
+      if (100000 <? n) && ((t =? mZ) || (t =? mT) || (t =? mF)) then RMalformed else
+      arr_n (ubj_payload f t) (f + Z.to_nat (Z.min n 100001))%nat n r3 []
+  end.
+Proof. reflexivity. Qed.
+
+Lemma wf_arr_intro n bt ts : n < 0 \/ n = zlen ts -> forallb (tree_matches bt) ts = true ->
+  forallb wf_tree ts = true -> wf_tree (TArr n bt ts) = true.
+Proof.
+  intros Hn Hm Hw. rewrite wf_arr, Hw, Hm. unfold len_ok. destruct Hn; lia.
+Qed.
+
+Lemma matches_any ts : forallb (tree_matches BAny) ts = true.
+Proof. apply forallb_forall. reflexivity. Qed.
+
+Lemma cv_arr n bt ts : cv (value_of (TArr n bt ts)) = CArr (map (fun t => cv (value_of t)) ts).
+Proof. cbn [value_of cv]. rewrite map_map. reflexivity. Qed.
+
+Lemma marker_state_value t : is_value_marker t = true -> exists st, marker_state t = Some st.
+Proof.
+  intro H. apply value_marker_cases in H.
+  repeat (destruct H as [->|H]; [eexists; reflexivity|]). subst t. eexists; reflexivity.
+Qed.
+
+Lemma zt_local_typed t r2 n r3 : zpay t = 0%nat -> ubj_len r2 = LVal n r3 ->
+  zt_local (mType :: t :: mCount :: r2) = n.
+Proof.
+  intros Hz Hl. unfold zt_local. rewrite Hl. unfold zpay in Hz.
+  destruct ((t =? mZ) || (t =? mT) || (t =? mF)); [reflexivity|discriminate].
+Qed.
+
+Lemma array_goal f b v rest p s : payload_spec f ->
+  ubj_payload (S f) mArrS b = RValue v rest -> all_bytes b = true -> uctx p -> s_fail s = None ->
+  pgoal mArrS (mku tArray sStart) b v rest p s.
+Proof.
+  intros Hspec H Hb Hp Hs. pose proof Hp as (Hbuf & Hmk & Hcur & Hv).
+  destruct b as [|h r]; [discriminate|].
+  pose proof Hb as Hb'. rewrite all_bytes_cons in Hb'. apply andb_true_iff in Hb' as [_ Hbr].
+  set (q0 := u_push p (mku tArray sStart)).
+  assert (Hq0 : forall s0 b0, uexec_step q0 s0 b0 = ufix
+    match b0 with
+    | [] => UCrash 14
+    | x :: r =>
+        if x =? mCount then UR (u_push p (mku tArrayCount sStart)) s0 r false unilE
+        else if x =? mType then UR (u_push p (mku tArrayTyped sStart)) s0 r false unilE
+        else let '(s1, e) := uvis s0 (EArrStart (-1) BAny) in UR (dyn p sStart) s1 b0 false e
+    end).
+  { intros s0 b0. rewrite uexec_step_eq, ex_array by reflexivity. reflexivity. }
+  unfold pgoal. fold q0. rewrite Hq0. change (zpay mArrS) with 2%nat.
+  destruct (h =? mType) eqn:Ety.
+  { (* typed *)
+    assert (h = mType) by lia. subst h. change (mType =? mCount) with false. cbv iota.
+    destruct r as [|t [|c r2]]; try discriminate H.
+    { exfalso. revert H. change (ubj_payload (S f) mArrS [mType; t]) with
+        (if negb (is_value_marker t) then RMalformed else RTruncated).
+      destruct (negb (is_value_marker t)); discriminate. }
+    rewrite pl_arr_typed' in H.
+    destruct (is_value_marker t) eqn:Hm; [|discriminate]. cbn [negb] in H.
+    destruct (c =? mCount) eqn:Ec; [|discriminate]. cbn [negb] in H.
+    assert (c = mCount) by lia. subst c.
+    destruct (ubj_len r2) as [n r3| |] eqn:Hl; try discriminate.
+    destruct ((100000 <? n) && ((t =? mZ) || (t =? mT) || (t =? mF))) eqn:Ebig; [discriminate|].
+    destruct (marker_state_value t Hm) as (st & Hst).
+    assert (Hbr2 : all_bytes r2 = true).
+    { rewrite !all_bytes_cons in Hbr. apply andb_true_iff in Hbr as [_ Hbr].
+      apply andb_true_iff in Hbr as [_ Hbr]. exact Hbr. }
+    destruct (ubj_len_facts _ _ _ Hl Hbr2) as (Hbr3 & Hn0 & Hlen & Hz).
+    pose proof (typed_header tArrayTyped p s t r2 n r3 st (or_introl eq_refl) Hp Hm Hst Hl) as Hhdr.
+    set (bt := marker_btype t) in *.
+    assert (Hztc : ztc r3 + zcost t n <= ztc (mType :: t :: mCount :: r2)).
+    { rewrite ztc_cons. pose proof (ztc_cons_ge t (mCount :: r2)). pose proof (ztc_cons_ge mCount r2).
+      unfold zcost. destruct (zpay t =? 0)%nat eqn:Ez.
+      - rewrite (zt_local_typed t r2 n r3) by (try exact Hl; apply Nat.eqb_eq; exact Ez). lia.
+      - pose proof (zt_local_nonneg (mType :: t :: mCount :: r2)). lia. }
+    assert (Hzc : 0 <= zcost t n) by (unfold zcost; destruct (zpay t =? 0)%nat; lia).
+    assert (Hexec : uexec_step (ul_push (hdr p tArrayTyped sWithLen st bt) n) s r3 =
+              ufix (atyped_body (uexec 2) (tarr p n st bt) (sadd s [EArrStart n bt]) r3)).
+    { rewrite uexec_step_eq, ex_arrtyped by reflexivity. rewrite atyped_withlen by exact Hs. reflexivity. }
+    destruct (n =? 0) eqn:En.
+    - assert (n = 0) by lia. subst n. rewrite arr_n_zero in H. inversion H; subst v rest; clear H.
+      exists (TArr 0 bt []), (3 + (1 + 0))%nat, bt.
+      split; [reflexivity|]. split; [reflexivity|]. split; [reflexivity|].
+      split; [unfold budget; rewrite !zlen_cons; lia|]. split; [exact Hbr3|].
+      rewrite ufix_ok. split; [apply vwrap_nd|].
+      eapply reaches_trans; [exact Hhdr|].
+      apply reaches_step_then; [apply ucontb_can; reflexivity|].
+      apply reaches_eq. rewrite Hexec, atyped_close by (try exact Hp; rewrite sadd_fail; exact Hs).
+      rewrite sadd_app. reflexivity.
+    - destruct (arr_typed_loop f t st Hspec Hm Hst _ n r3 [] v rest H ltac:(lia) Hbr3 p
+                  (sadd s [EArrStart n bt]) bt Hp ltac:(rewrite sadd_fail; exact Hs))
+        as (ts & m & vt & Hv' & Hwf & Hmat & Hlen' & Hbud & Hbrest & Hreach).
+      exists (TArr n bt ts), (3 + (1 + m))%nat, vt.
+      split; [apply wf_arr_intro; [right; lia|exact Hmat|exact Hwf]|]. split; [reflexivity|].
+      split; [rewrite cv_arr, Hv'; reflexivity|].
+      split; [unfold budget; rewrite !zlen_cons; lia|]. split; [exact Hbrest|].
+      rewrite ufix_ok. split; [apply vwrap_nd|].
+      eapply reaches_trans; [exact Hhdr|].
+      rewrite flatten_arr.
+      replace (sadd s (EArrStart n bt :: flatten_elems ts ++ [EArrEnd]))
+        with (sadd (sadd s [EArrStart n bt]) (flatten_elems ts ++ [EArrEnd]))
+        by (rewrite sadd_app; reflexivity).
+      apply reaches_step_then; [|rewrite Hexec, <- uexec_tarr; exact Hreach].
+      destruct (zpay t) as [|z] eqn:Ez.
+      + apply ucontb_can. unfold can_step_without_input.
+        change (u_t (up_cur (ul_push (hdr p tArrayTyped sWithLen st bt) n))) with tArrayTyped.
+        change (u_s (up_cur (ul_push (hdr p tArrayTyped sWithLen st bt) n))) with sWithLen.
+        change (up_vcur (ul_push (hdr p tArrayTyped sWithLen st bt) n)) with st. kred.
+        rewrite (zero_sized_marker t st Ez Hst). apply orb_true_r.
+      + apply ucontb_pos, nonempty_pos. intros ->.
+        eapply (arr_n_nonempty (ubj_payload f t) _ n); [lia|exact H|].
+        intros v0 r0 Hx. pose proof (payload_nonempty _ _ _ _ Hx Hm). lia. }
+  destruct (h =? mCount) eqn:Ecn.
+  { (* counted *)
+    assert (h = mCount) by lia. subst h. rewrite pl_arr_counted in H.
+    destruct (ubj_len r) as [n r1| |] eqn:Hl; try discriminate.
+    destruct (ubj_len_facts _ _ _ Hl Hbr) as (Hbr1 & Hn0 & Hlen & Hz).
+    assert (Hlenstep : uexec_step (u_push p (mku tArrayCount sStart)) s r =
+              UR (ul_push (u_push p (mku tArrayCount sWithLen)) n) s r1 false unilE).
+    { rewrite uexec_step_eq, ex_arrcount_start by reflexivity.
+      rewrite (ustep_len_ok _ r _ n r1) by assumption. reflexivity. }
+    assert (Hexec : uexec_step (ul_push (u_push p (mku tArrayCount sWithLen)) n) s r1 =
+              ufix (acount_body (cnt p n) (sadd s [EArrStart n BAny]) r1)).
+    { rewrite uexec_step_eq, ex_arrcount by reflexivity. rewrite acount_withlen by exact Hs. reflexivity. }
+    assert (Hr : 0 < zlen r).
+    { destruct (ubj_len_rest _ _ _ Hl) as (pre & -> & Hpre). rewrite zlen_app. pose proof (zlen_nonneg r1). lia. }
+    rewrite ufix_ok.
+    destruct (n =? 0) eqn:En.
+    - assert (n = 0) by lia. subst n. rewrite arr_n_zero in H. inversion H; subst v rest; clear H.
+      exists (TArr 0 BAny []), (1 + (1 + 0))%nat, (up_vtype p).
+      split; [reflexivity|]. split; [reflexivity|]. split; [reflexivity|].
+      split; [unfold budget; rewrite !zlen_cons; pose proof (ztc_cons_ge mCount r); lia|]. split; [exact Hbr1|].
+      split; [apply vwrap_nd|].
+      apply reaches_step_then; [apply ucontb_pos; exact Hr|]. rewrite Hlenstep.
+      apply reaches_step_then; [apply ucontb_can; reflexivity|].
+      apply reaches_eq. rewrite Hexec, acount_close by (try exact Hcur; rewrite sadd_fail; exact Hs).
+      rewrite sadd_app, vtype_id. reflexivity.
+    - destruct (arr_cnt_loop f Hspec f n r1 [] v rest H ltac:(lia) Hbr1 p
+                  (sadd s [EArrStart n BAny]) Hp ltac:(rewrite sadd_fail; exact Hs))
+        as (ts & m & vt & Hv' & Hwf & Hlen' & Hbud & Hbrest & Hreach).
+      exists (TArr n BAny ts), (1 + (1 + m))%nat, vt.
+      split; [apply wf_arr_intro; [right; lia|apply matches_any|exact Hwf]|]. split; [reflexivity|].
+      split; [rewrite cv_arr, Hv'; reflexivity|].
+      split; [unfold budget in *; rewrite !zlen_cons; pose proof (ztc_cons_ge mCount r); lia|].
+      split; [exact Hbrest|]. split; [apply vwrap_nd|].
+      apply reaches_step_then; [apply ucontb_pos; exact Hr|]. rewrite Hlenstep.
+      rewrite flatten_arr.
+      replace (sadd s (EArrStart n BAny :: flatten_elems ts ++ [EArrEnd]))
+        with (sadd (sadd s [EArrStart n BAny]) (flatten_elems ts ++ [EArrEnd]))
+        by (rewrite sadd_app; reflexivity).
+      apply reaches_step_then; [|rewrite Hexec, <- uexec_cnt; exact Hreach].
+      apply ucontb_pos, nonempty_pos. intros ->.
+      eapply (arr_n_nonempty (uvalue f f) f n); [lia|exact H|].
+      intros v0 r0 Hx. eapply uvalue_nonempty; exact Hx. }
+  (* plain *)
+  rewrite pl_arr_plain in H by assumption.
+  destruct (arr_plain_loop f Hspec f (h :: r) [] v rest H Hb p (sadd s [EArrStart (-1) BAny]) sStart Hp
+              ltac:(rewrite sadd_fail; exact Hs) (or_introl eq_refl))
+    as (ts & n & vt & Hv' & Hwf & Hbud & Hbrest & Hreach).
+  exists (TArr (-1) BAny ts), (1 + n)%nat, vt.
+  split; [apply wf_arr_intro; [left; lia|apply matches_any|exact Hwf]|]. split; [reflexivity|].
+  split; [rewrite cv_arr, Hv'; reflexivity|].
+  split; [unfold budget in *; lia|]. split; [exact Hbrest|].
+  rewrite uvis_ok by exact Hs. rewrite ufix_ok. split; [apply vwrap_nd|].
+  rewrite flatten_arr.
+  replace (sadd s (EArrStart (-1) BAny :: flatten_elems ts ++ [EArrEnd]))
+    with (sadd (sadd s [EArrStart (-1) BAny]) (flatten_elems ts ++ [EArrEnd]))
+    by (rewrite sadd_app; reflexivity).
+  apply reaches_step_then; [apply ucontb_nonempty|exact Hreach].
+Qed.
+
+(* ====================================================================== *)
+(* Part 9: objects                                                          *)
+(* ====================================================================== *)
+
+Lemma ex_object rec p s b : u_t (up_cur p) = tObject -> ubody rec p s b = ufix
+  match b with
+  | [] => UCrash 17
+  | x :: r =>
+      if x =? mCount then UR (uset_type p tObjectCount) s r false unilE
+      else if x =? mType then UR (uset_type p tObjectTyped) s r false unilE
+      else let '(s1, e) := uvis s (EObjStart (-1) BAny) in UR (uset_type p tObjectDyn) s1 b false e
+  end.
+Proof. intro H. unfold ubody. rewrite H. reflexivity. Qed.
+
+Lemma ex_objdyn_emptykey rec p s b : u_t (up_cur p) = tObjectDyn -> u_s (up_cur p) = sFieldNameLen ->
+  up_lcur p = 0 -> ubody rec p s b = ufix
+    (let p2 := ul_pop p in
+     let '(s1, e) := uvis s (EKeyRef []) in
+     UR (uset_step p2 sCont) s1 b false e).
+Proof. intros H H2 H3. unfold ubody. rewrite H, H2, H3. reflexivity. Qed.
+
+Lemma ex_objdyn rec p s b : u_t (up_cur p) = tObjectDyn ->
+  (u_s (up_cur p) =? sFieldNameLen) && (up_lcur p =? 0) = false -> ubody rec p s b = ufix
+  match b with
+  | [] => UCrash 18
+  | x :: r =>
+      if (u_s (up_cur p) =? sStart) && (up_marker p =? 0) && (x =? mObjE) then
+        let '(s1, e) := uvis s EObjEnd in
+        if unil e then let '(p1, d) := upop_state p in UR p1 s1 r d unilE else UR p s1 r true e
+      else if u_s (up_cur p) =? sStart then of_ul (ustep_len p b (with_step (up_cur p) sFieldNameLen)) s
+      else if u_s (up_cur p) =? sFieldNameLen then
+        match ucollect p b (up_lcur p) with
+        | UCC => UCrash 19
+        | UC p1 rest None => UR p1 s rest false unilE
+        | UC p1 rest (Some tmp) =>
+            let p2 := ul_pop p1 in
+            let '(s1, e) := uvis s (EKeyRef tmp) in
+            UR (uset_step p2 sCont) s1 rest false e
+        end
+      else if u_s (up_cur p) =? sCont then
+        if x =? mN then UR p s r false unilE
+        else value_nodone (ustep_value (uset_step p sStart) s b)
+      else UR p s b false unilE
+  end.
+Proof. intros H H2. unfold ubody. rewrite H. cbn [tObjectDyn]. kred.
+  change (10 =? 10) with true. cbv iota. cbn [andb]. rewrite H2. reflexivity. Qed.
+
+Definition odyn (p : uparser) (stp : Z) : uparser := u_push p (mku tObjectDyn stp).
+
+Lemma odyn_uctx p stp : uctx p -> uctx (odyn p stp).
+Proof. intro H. apply push_uctx; [exact H|discriminate]. Qed.
+
+Lemma ukey_inv b k r2 : ukey b = inl (Some (k, r2)) ->
+  exists klen r1, ubj_len b = LVal klen r1 /\ take klen r1 = Some (k, r2).
+Proof.
+  unfold ukey. destruct (ubj_len b) as [n r| |]; try discriminate.
+  destruct (take n r) as [[a r']|] eqn:E; [|discriminate].
+  intro H. inversion H; subst. eauto.
+Qed.
+
+Lemma ukey_cases b : (exists k r2, ukey b = inl (Some (k, r2))) \/ (exists e, ukey b = inr e /\ forall v r, e <> RValue v r).
+Proof.
+  unfold ukey. destruct (ubj_len b) as [n r| |].
+  - destruct (take n r) as [[a r']|]; [left; eauto|right; eexists; split; [reflexivity|discriminate]].
+  - right; eexists; split; [reflexivity|discriminate].
+  - right; eexists; split; [reflexivity|discriminate].
+Qed.
+
+Lemma odyn_end p s r : up_marker p = 0 -> u_t (up_cur p) <> tFail -> s_fail s = None ->
+  uexec_step (odyn p sStart) s (mObjE :: r) = after_val p (sadd s [EObjEnd]) r.
+Proof.
+  intros Hmk Hcur Hs. rewrite uexec_step_eq, ex_objdyn by reflexivity.
+  change (u_s (up_cur (odyn p sStart))) with sStart. change (up_marker (odyn p sStart)) with (up_marker p).
+  rewrite Hmk. kred. change (mObjE =? mObjE) with true. cbv iota.
+  rewrite uvis_ok by exact Hs. rewrite unil_nil. unfold odyn. rewrite upop_state_push by exact Hcur. reflexivity.
+Qed.
+
+Lemma odyn_keylen p s h r klen r1 : up_buf p = [] -> up_marker p = 0 -> (h =? mObjE) = false ->
+  ubj_len (h :: r) = LVal klen r1 ->
+  uexec_step (odyn p sStart) s (h :: r) = UR (ul_push (odyn p sFieldNameLen) klen) s r1 false unilE.
+Proof.
+  intros Hbuf Hmk Hh Hl. rewrite uexec_step_eq, ex_objdyn by reflexivity.
+  change (u_s (up_cur (odyn p sStart))) with sStart. rewrite Hh. kred. rewrite andb_false_r.
+  rewrite (ustep_len_ok _ _ _ klen r1) by assumption. reflexivity.
+Qed.
+
+Lemma odyn_key p s klen r1 key r2 : up_buf p = [] -> s_fail s = None ->
+  take klen r1 = Some (key, r2) ->
+  uexec_step (ul_push (odyn p sFieldNameLen) klen) s r1 = UR (odyn p sCont) (sadd s [EKeyRef key]) r2 false unilE.
+Proof.
+  intros Hbuf Hs Ht. destruct (klen =? 0) eqn:Ek.
+  - assert (klen = 0) by lia. subst klen.
+    pose proof (take_some _ _ _ _ Ht) as (_ & _ & _ & _ & Hr1 & Hza).
+    apply zlen_zero_nil in Hza. subst key. cbn [app] in Hr1. subst r2.
+    rewrite uexec_step_eq, ex_objdyn_emptykey by reflexivity.
+    cbv zeta. rewrite uvis_ok by exact Hs. rewrite lpop_lpush. reflexivity.
+  - rewrite uexec_step_eq, ex_objdyn
+      by (try reflexivity; change (up_lcur (ul_push (odyn p sFieldNameLen) klen)) with klen; rewrite Ek; apply andb_false_r).
+    pose proof (take_some _ _ _ _ Ht) as (Hk0 & Hl & _ & _ & _ & _).
+    destruct r1 as [|x r1']; [rewrite zlen_nil in Hl; lia|].
+    change (u_s (up_cur (ul_push (odyn p sFieldNameLen) klen))) with sFieldNameLen. kred.
+    change (up_lcur (ul_push (odyn p sFieldNameLen) klen)) with klen.
+    rewrite (ucollect_take (ul_push (odyn p sFieldNameLen) klen) _ _ _ _ Hbuf Ht).
+    cbv zeta. rewrite uvis_ok by exact Hs. rewrite lpop_lpush. reflexivity.
+Qed.
+
+Lemma odyn_noop p s r : uexec_step (odyn p sCont) s (mN :: r) = UR (odyn p sCont) s r false unilE.
+Proof. rewrite uexec_step_eq, ex_objdyn by reflexivity. reflexivity. Qed.
+
+Lemma odyn_value p s x r : (x =? mN) = false ->
+  uexec_step (odyn p sCont) s (x :: r) = ufix (value_nodone (ustep_value (odyn p sStart) s (x :: r))).
+Proof.
+  intro Hx. rewrite uexec_step_eq, ex_objdyn by reflexivity.
+  change (u_s (up_cur (odyn p sCont))) with sCont. kred. rewrite Hx. reflexivity.
+Qed.
+
+Lemma odyn_emptykey_can p klen : klen = 0 ->
+  can_step_without_input (ul_push (odyn p sFieldNameLen) klen) = true.
+Proof. intros ->. reflexivity. Qed.
+
+Definition mval (m : bytes * bool * tree) : bytes * cvalue := (fst (fst m), cv (value_of (snd m))).
+Definition mwf (m : bytes * bool * tree) : bool := all_bytes (fst (fst m)) && wf_tree (snd m).
+
+Lemma obj_plain_nonempty val g b acc v rest : obj_plain val g b acc = RValue v rest -> b <> [].
+Proof. destruct g; [discriminate|]. destruct b; [discriminate|]. discriminate. Qed.
+
+Lemma obj_plain_loop f : payload_spec f -> forall g b acc v rest,
+  obj_plain (uvalue f f) g b acc = RValue v rest -> all_bytes b = true ->
+  forall p s, uctx p -> s_fail s = None ->
+  exists ms n vt, v = CObj (rev acc ++ map mval ms) /\
+    forallb mwf ms = true /\ budget (n + 3) b rest /\ all_bytes rest = true /\
+    reaches (uexec_step (odyn p sStart) s b)
+            (after_val (uset_vtype p vt) (sadd s (flatten_members ms ++ [EObjEnd])) rest) n.
+Proof.
+  intros Hspec. induction g as [|g IH]; intros b acc v rest H Hb p s Hp Hs; [discriminate|].
+  destruct b as [|h r]; [discriminate|]. rewrite obj_plain_S in H.
+  pose proof Hb as Hb'. rewrite all_bytes_cons in Hb'. apply andb_true_iff in Hb' as [_ Hbr].
+  pose proof Hp as (Hbuf & Hmk & Hcur & Hv).
+  destruct (h =? mObjE) eqn:Eend.
+  - assert (h = mObjE) by lia. subst h. inversion H; subst v rest. clear H.
+    exists [], 0%nat, (up_vtype p).
+    split; [cbn [map]; rewrite app_nil_r; reflexivity|]. split; [reflexivity|].
+    split; [unfold budget; rewrite zlen_cons; pose proof (ztc_cons_ge mObjE r); lia|]. split; [exact Hbr|].
+    apply reaches_eq. rewrite odyn_end by assumption. rewrite vtype_id. reflexivity.
+  - destruct (ukey_cases (h :: r)) as [(k & r2 & Hk)|(e & Hk & He)];
+      rewrite Hk in H; [|exfalso; destruct e; try discriminate; eapply He; reflexivity].
+    destruct (ukey_inv _ _ _ Hk) as (klen & r1 & Hl & Ht).
+    destruct (uvalue f f r2) as [v1 r3| | |] eqn:Hv1; try discriminate.
+    destruct (ubj_len_facts _ _ _ Hl Hb) as (Hbr1 & Hk0 & Hlen & Hz).
+    destruct (take_bytes _ _ _ _ Ht Hbr1) as [Hbk Hbr2].
+    pose proof (take_some _ _ _ _ Ht) as (_ & _ & _ & _ & Hr1 & Hzk).
+    pose proof (ztc_take _ _ _ _ Ht) as Hz2.
+    destruct (skip_noops f (odyn p sCont) (odyn_noop p) f r2 v1 r3 Hv1 Hbr2)
+      as (kn & m & rv & Hm & Hpl & Hbrv & Hbudk & Hskip).
+    destruct (value_of_payload f m rv v1 r3 (odyn p sStart) (sadd s [EKeyRef k]) Hspec Hpl Hm Hbrv
+                (odyn_uctx p sStart Hp) ltac:(rewrite sadd_fail; exact Hs))
+      as (t1 & n1 & vt1 & Hwf1 & _ & Hcv1 & Hbud1 & Hbr3 & Hreach1).
+    unfold odyn in Hreach1. rewrite vwrap_push in Hreach1 by exact Hcur.
+    rewrite push_vtype, after_val_push in Hreach1 by exact Hcur.
+    destruct (IH r3 ((k, v1) :: acc) v rest H Hbr3 (uset_vtype p vt1) (sadd (sadd s [EKeyRef k]) (flatten t1))
+                (uctx_vtype p vt1 Hp) ltac:(rewrite !sadd_fail; exact Hs))
+      as (ms & n & vt & Hv' & Hwf & Hbud & Hbrest & Hreach).
+    exists ((k, true, t1) :: ms), (1 + (1 + (kn + (n1 + (1 + n)))))%nat, vt.
+    split; [rewrite Hv'; cbn [rev map]; rewrite <- app_assoc; unfold mval at 2; cbn [fst snd]; rewrite Hcv1; reflexivity|].
+    split; [cbn [forallb]; unfold mwf at 1; cbn [fst snd]; rewrite Hbk, Hwf1, Hwf; reflexivity|].
+    split.
+    { unfold budget in *. rewrite Hr1 in Hlen. rewrite zlen_app in Hlen. rewrite zlen_cons in *.
+      pose proof (zlen_nonneg k). lia. }
+    split; [exact Hbrest|].
+    rewrite (odyn_keylen p s h r klen r1) by assumption.
+    apply reaches_step_then.
+    { destruct (klen =? 0) eqn:Ek.
+      - apply ucontb_can. apply odyn_emptykey_can. lia.
+      - apply ucontb_pos. pose proof (take_some _ _ _ _ Ht) as (_ & Hl' & _). lia. }
+    rewrite (odyn_key p s klen r1 k r2) by assumption.
+    apply reaches_step_then.
+    { apply ucontb_pos, nonempty_pos. intros ->. eapply uvalue_nonempty; exact Hv1. }
+    eapply reaches_trans; [apply Hskip|].
+    rewrite odyn_value by (apply value_marker_not_noop; exact Hm). unfold odyn.
+    rewrite (ufix_reaches _ _ _ _ _ _ Hreach1).
+    eapply reaches_trans; [exact Hreach1|].
+    replace (sadd s (flatten_members ((k, true, t1) :: ms) ++ [EObjEnd]))
+      with (sadd (sadd (sadd s [EKeyRef k]) (flatten t1)) (flatten_members ms ++ [EObjEnd])).
+    2:{ rewrite !sadd_app, flatten_members_cons. cbn [key_event app]. rewrite <- app_assoc. reflexivity. }
+    apply reaches_step_then; [|exact Hreach].
+    apply ucontb_pos, nonempty_pos. eapply obj_plain_nonempty; exact H.
+Qed.
+
+(* ---------- counted and typed objects: stepObjectCountedContent ---------- *)
+Definition ocwrap (typed : bool) (r : ocres) : ures :=
+  match r with
+  | OCC w => UCrash w
+  | OC fin p1 s1 rest err =>
+      if fin && unil err then
+        let '(p2, d) := upop_len_state (if typed then v_pop p1 else p1) in UR p2 s1 rest d unilE
+      else UR p1 s1 rest fin err
+  end.
+
+Lemma ex_objcount rec p s b : u_t (up_cur p) = tObjectCount -> (u_s (up_cur p) =? sStart) = false ->
+  ubody rec p s b = ufix (ocwrap false (ustep_obj_content p s b false)).
+Proof. intros H H2. unfold ubody. rewrite H, H2. reflexivity. Qed.
+
+Lemma ex_objcount_start rec p s b : u_t (up_cur p) = tObjectCount -> u_s (up_cur p) = sStart ->
+  ubody rec p s b = ufix (of_ul (ustep_len p b (with_step (up_cur p) sWithLen)) s).
+Proof. intros H H2. unfold ubody. rewrite H, H2. reflexivity. Qed.
+
+Lemma ex_objtyped rec p s b : u_t (up_cur p) = tObjectTyped ->
+  (u_s (up_cur p) =? sStart) || (u_s (up_cur p) =? sWithType0) || (u_s (up_cur p) =? sWithType1) = false ->
+  ubody rec p s b = ufix (ocwrap true (ustep_obj_content p s b true)).
+Proof. intros H H2. unfold ubody. rewrite H, H2. reflexivity. Qed.
+
+Lemma oc_fieldname Q s b typed klen r1 : up_buf Q = [] -> up_marker Q = 0 ->
+  u_s (up_cur Q) = sFieldName -> (up_lcur Q =? 0) = false -> ubj_len b = LVal klen r1 ->
+  ustep_obj_content Q s b typed = OC false (ul_push (uset_step Q sFieldNameLen) klen) s r1 unilE.
+Proof.
+  intros Hbuf Hmk Hst Hl Hlen. unfold ustep_obj_content. rewrite Hst. kred. rewrite Hl.
+  rewrite (ustep_len_ok _ _ _ klen r1) by assumption. reflexivity.
+Qed.
+
+Lemma oc_close Q s b typed : u_s (up_cur Q) = sFieldName -> up_lcur Q = 0 -> s_fail s = None ->
+  ustep_obj_content Q s b typed = OC true Q (sadd s [EObjEnd]) b unilE.
+Proof.
+  intros Hst Hl Hs. unfold ustep_obj_content. rewrite Hst. kred. rewrite Hl. kred.
+  rewrite uvis_ok by exact Hs. reflexivity.
+Qed.
+
+Lemma oc_fieldnamelen Q s b typed key r2 : up_buf Q = [] ->
+  u_s (up_cur Q) = sFieldNameLen -> take (up_lcur Q) b = Some (key, r2) -> s_fail s = None ->
+  ustep_obj_content Q s b typed = OC false (uset_step (ul_pop Q) sCont) (sadd s [EKeyRef key]) r2 unilE.
+Proof.
+  intros Hbuf Hst Ht Hs. unfold ustep_obj_content. rewrite Hst. kred.
+  destruct (up_lcur Q =? 0) eqn:Ek.
+  - assert (Hk : up_lcur Q = 0) by lia. rewrite Hk in Ht.
+    pose proof (take_some _ _ _ _ Ht) as (_ & _ & _ & _ & Hr1 & Hza).
+    apply zlen_zero_nil in Hza. subst key. cbn [app] in Hr1. subst r2.
+    rewrite uvis_ok by exact Hs. reflexivity.
+  - rewrite (ucollect_take Q _ _ _ _ Hbuf Ht). rewrite uvis_ok by exact Hs. reflexivity.
+Qed.
+
+Lemma oc_withlen Q s b typed : u_s (up_cur Q) = sWithLen -> (up_lcur Q =? 0) = false -> s_fail s = None ->
+  ustep_obj_content Q s b typed =
+  ustep_obj_content (uset_step Q sFieldName) (sadd s [EObjStart (up_lcur Q) BAny]) b typed.
+Proof.
+  intros Hst Hl Hs. unfold ustep_obj_content at 1. rewrite Hst. kred.
+  rewrite uvis_ok by exact Hs. rewrite unil_nil. kred. rewrite Hl.
+  unfold ustep_obj_content. change (u_s (up_cur (uset_step Q sFieldName))) with sFieldName. kred.
+  reflexivity.
+Qed.
+
+Lemma oc_withlen_zero Q s b typed : u_s (up_cur Q) = sWithLen -> up_lcur Q = 0 -> s_fail s = None ->
+  ustep_obj_content Q s b typed = OC true Q (sadd s [EObjStart 0 BAny; EObjEnd]) b unilE.
+Proof.
+  intros Hst Hl Hs. unfold ustep_obj_content. rewrite Hst. kred. rewrite Hl.
+  rewrite uvis_ok by exact Hs. rewrite unil_nil. kred.
+  rewrite uvis_ok by (rewrite sadd_fail; exact Hs). rewrite sadd_app. reflexivity.
+Qed.
+
+Lemma oc_noop Q s r : u_s (up_cur Q) = sCont ->
+  ustep_obj_content Q s (mN :: r) false = OC false Q s r unilE.
+Proof. intro Hst. unfold ustep_obj_content. rewrite Hst. reflexivity. Qed.
+
+Lemma oc_value Q s x r : u_s (up_cur Q) = sCont -> (x =? mN) = false ->
+  ustep_obj_content Q s (x :: r) false =
+  match value_nodone (ustep_value (uset_step (uset_lcur Q (up_lcur Q - 1)) sFieldName) s (x :: r)) with
+  | UCrash w => OCC w
+  | UR p2 s2 rest _ err => OC false p2 s2 rest err
+  end.
+Proof. intros Hst Hx. unfold ustep_obj_content. rewrite Hst. kred. rewrite Hx. reflexivity. Qed.
+
+Lemma oc_push Q s b : u_s (up_cur Q) = sCont ->
+  ustep_obj_content Q s b true =
+  OC false (u_push (uset_step (uset_lcur Q (up_lcur Q - 1)) sFieldName) (up_vcur Q)) s b unilE.
+Proof. intro Hst. unfold ustep_obj_content. rewrite Hst. kred. destruct b; reflexivity. Qed.
+
+Definition ocnt (p : uparser) (n : Z) (stp : Z) : uparser := ul_push (u_push p (mku tObjectCount stp)) n.
+
+Lemma ocnt_stack p n stp : u_t (up_cur p) <> tFail -> (zlen (up_stack (ocnt p n stp)) =? 0) = false.
+Proof. intro H. exact (push_stack_nonempty p (mku tObjectCount stp) H). Qed.
+
+Lemma ocnt_uctx p n stp : uctx p -> uctx (ocnt p n stp).
+Proof. intros (H1 & H2 & H3 & H4). split; [exact H1|]. split; [exact H2|]. split; [discriminate|exact H4]. Qed.
+
+Lemma uexec_ocnt p n stp s b : (stp =? sStart) = false ->
+  uexec_step (ocnt p n stp) s b = ufix (ocwrap false (ustep_obj_content (ocnt p n stp) s b false)).
+Proof. intro H. rewrite uexec_step_eq. apply ex_objcount; [reflexivity|exact H]. Qed.
+
+Lemma ocnt_fieldname p n s b klen r1 : up_buf p = [] -> up_marker p = 0 -> (n =? 0) = false ->
+  ubj_len b = LVal klen r1 ->
+  uexec_step (ocnt p n sFieldName) s b = UR (ul_push (ocnt p n sFieldNameLen) klen) s r1 false unilE.
+Proof.
+  intros Hbuf Hmk Hn Hl. rewrite uexec_ocnt by reflexivity.
+  rewrite (oc_fieldname _ s b false klen r1) by (try reflexivity; assumption). reflexivity.
+Qed.
+
+Lemma ocnt_key p n s klen r1 key r2 : up_buf p = [] -> s_fail s = None -> take klen r1 = Some (key, r2) ->
+  uexec_step (ul_push (ocnt p n sFieldNameLen) klen) s r1 =
+  UR (ocnt p n sCont) (sadd s [EKeyRef key]) r2 false unilE.
+Proof.
+  intros Hbuf Hs Ht. rewrite uexec_step_eq, ex_objcount by reflexivity.
+  rewrite (oc_fieldnamelen _ s r1 false key r2) by (try reflexivity; assumption).
+  cbn [ocwrap andb]. rewrite lpop_lpush. reflexivity.
+Qed.
+
+Lemma ocnt_noop p n s r : uexec_step (ocnt p n sCont) s (mN :: r) = UR (ocnt p n sCont) s r false unilE.
+Proof. rewrite uexec_ocnt by reflexivity. rewrite oc_noop by reflexivity. reflexivity. Qed.
+
+Lemma ocwrap_value X : ocwrap false
+  match value_nodone X with
+  | UCrash w => OCC w
+  | UR p2 s2 rest _ err => OC false p2 s2 rest err
+  end = value_nodone X.
+Proof. destruct X; reflexivity. Qed.
+
+Lemma ocnt_value p n s x r : (x =? mN) = false ->
+  uexec_step (ocnt p n sCont) s (x :: r) =
+  ufix (value_nodone (ustep_value (ocnt p (n - 1) sFieldName) s (x :: r))).
+Proof.
+  intro Hx. rewrite uexec_ocnt by reflexivity. rewrite oc_value by (try reflexivity; exact Hx).
+  rewrite ocwrap_value. reflexivity.
+Qed.
+
+Lemma ocnt_close p s b : u_t (up_cur p) <> tFail -> s_fail s = None ->
+  uexec_step (ocnt p 0 sFieldName) s b = after_val p (sadd s [EObjEnd]) b.
+Proof.
+  intros Hcur Hs. rewrite uexec_ocnt by reflexivity. rewrite oc_close by (try reflexivity; exact Hs).
+  cbn [ocwrap andb]. rewrite unil_nil. unfold upop_len_state, ocnt.
+  rewrite lpop_lpush, upop_state_push by exact Hcur. reflexivity.
+Qed.
+
+Lemma obj_n_zero pl g b acc : obj_n pl g 0 b acc = RValue (CObj (rev acc)) b.
+Proof. destruct g; reflexivity. Qed.
+
+Lemma obj_n_nonempty pl g n acc v rest : 0 < n -> obj_n pl g n [] acc = RValue v rest -> False.
+Proof.
+  intros Hn H. destruct g; [rewrite obj_n_O in H|rewrite obj_n_S in H];
+    (destruct (n <=? 0) eqn:E; [lia|]); discriminate.
+Qed.
+
+Lemma obj_cnt_loop f : payload_spec f -> forall g n b acc v rest,
+  obj_n (uvalue f f) g n b acc = RValue v rest -> 0 < n -> all_bytes b = true ->
+  forall p s, uctx p -> s_fail s = None ->
+  exists ms m vt, v = CObj (rev acc ++ map mval ms) /\
+    forallb mwf ms = true /\ zlen ms = n /\ budget (m + 1) b rest /\ all_bytes rest = true /\
+    reaches (uexec_step (ocnt p n sFieldName) s b)
+            (after_val (uset_vtype p vt) (sadd s (flatten_members ms ++ [EObjEnd])) rest) m.
+Proof.
+  intros Hspec. induction g as [|g IH]; intros n b acc v rest H Hn Hb p s Hp Hs.
+  { rewrite obj_n_O in H. destruct (n <=? 0) eqn:E; [lia|discriminate]. }
+  rewrite obj_n_S in H. destruct (n <=? 0) eqn:E; [lia|]. clear E.
+  pose proof Hp as (Hbuf & Hmk & Hcur & Hv).
+  assert (En : (n =? 0) = false) by lia.
+  destruct (ukey_cases b) as [(k & r2 & Hk)|(e & Hk & He)];
+    rewrite Hk in H; [|exfalso; destruct e; try discriminate; eapply He; reflexivity].
+  destruct (ukey_inv _ _ _ Hk) as (klen & r1 & Hl & Ht).
+  destruct (uvalue f f r2) as [v1 r3| | |] eqn:Hv1; try discriminate.
+  destruct (ubj_len_facts _ _ _ Hl Hb) as (Hbr1 & Hk0 & Hlen & Hz).
+  destruct (take_bytes _ _ _ _ Ht Hbr1) as [Hbk Hbr2].
+  pose proof (take_some _ _ _ _ Ht) as (_ & Hkl & _ & _ & Hr1 & _).
+  pose proof (ztc_take _ _ _ _ Ht) as Hz2.
+  destruct (skip_noops f (ocnt p n sCont) (ocnt_noop p n) f r2 v1 r3 Hv1 Hbr2)
+    as (kn & m & rv & Hm & Hpl & Hbrv & Hbudk & Hskip).
+  destruct (value_of_payload f m rv v1 r3 (ocnt p (n - 1) sFieldName) (sadd s [EKeyRef k]) Hspec Hpl Hm Hbrv
+              (ocnt_uctx p (n - 1) sFieldName Hp) ltac:(rewrite sadd_fail; exact Hs))
+    as (t1 & n1 & vt1 & Hwf1 & _ & Hcv1 & Hbud1 & Hbr3 & Hreach1).
+  rewrite vwrap_ne in Hreach1 by (apply ocnt_stack; exact Hcur).
+  change (uset_vtype (ocnt p (n - 1) sFieldName) vt1) with (ocnt (uset_vtype p vt1) (n - 1) sFieldName) in Hreach1.
+  rewrite after_val_ne in Hreach1 by (apply ocnt_stack; exact Hcur).
+  assert (Hfirst : reaches (uexec_step (ocnt p n sFieldName) s b)
+            (UR (ocnt (uset_vtype p vt1) (n - 1) sFieldName) (sadd (sadd s [EKeyRef k]) (flatten t1)) r3 false unilE)
+            (1 + (1 + (kn + n1)))).
+  { rewrite (ocnt_fieldname p n s b klen r1) by assumption.
+    apply reaches_step_then.
+    { destruct (klen =? 0) eqn:Ek.
+      - apply ucontb_can. assert (klen = 0) as -> by lia. reflexivity.
+      - apply ucontb_pos. lia. }
+    rewrite (ocnt_key p n s klen r1 k r2) by assumption.
+    apply reaches_step_then.
+    { apply ucontb_pos, nonempty_pos. intros ->. eapply uvalue_nonempty; exact Hv1. }
+    eapply reaches_trans; [apply Hskip|].
+    rewrite ocnt_value by (apply value_marker_not_noop; exact Hm).
+    rewrite (ufix_reaches _ _ _ _ _ _ Hreach1). exact Hreach1. }
+  assert (Hbytes : zlen r2 + 2 <= zlen b).
+  { rewrite Hr1 in Hlen. rewrite zlen_app in Hlen. pose proof (zlen_nonneg k). lia. }
+  destruct (n - 1 =? 0) eqn:En1.
+  - assert (n = 1) by lia. subst n. change (1 - 1) with 0 in *.
+    rewrite obj_n_zero in H. inversion H; subst v rest; clear H.
+    exists [(k, true, t1)], ((1 + (1 + (kn + n1))) + (1 + 0))%nat, vt1.
+    split; [cbn [rev map]; unfold mval; cbn [fst snd]; rewrite Hcv1; reflexivity|].
+    split; [cbn [forallb]; unfold mwf; cbn [fst snd]; rewrite Hbk, Hwf1; reflexivity|]. split; [reflexivity|].
+    split; [unfold budget in *; rewrite zlen_cons in *; lia|]. split; [exact Hbr3|].
+    eapply reaches_trans; [exact Hfirst|].
+    apply reaches_step_then; [apply ucontb_can; reflexivity|].
+    apply reaches_eq. rewrite ocnt_close by (try exact Hcur; rewrite !sadd_fail; exact Hs).
+    rewrite !sadd_app, flatten_members_cons. cbn [key_event flatten_members flat_map app].
+    rewrite app_nil_r. reflexivity.
+  - destruct (IH (n - 1) r3 ((k, v1) :: acc) v rest H ltac:(lia) Hbr3 (uset_vtype p vt1)
+                (sadd (sadd s [EKeyRef k]) (flatten t1))
+                (uctx_vtype p vt1 Hp) ltac:(rewrite !sadd_fail; exact Hs))
+      as (ms & m' & vt & Hv' & Hwf & Hlen' & Hbud & Hbrest & Hreach).
+    exists ((k, true, t1) :: ms), ((1 + (1 + (kn + n1))) + (1 + m'))%nat, vt.
+    split; [rewrite Hv'; cbn [rev map]; rewrite <- app_assoc; unfold mval at 2; cbn [fst snd]; rewrite Hcv1; reflexivity|].
+    split; [cbn [forallb]; unfold mwf at 1; cbn [fst snd]; rewrite Hbk, Hwf1, Hwf; reflexivity|].
+    split; [rewrite zlen_cons; lia|].
+    split; [unfold budget in *; rewrite zlen_cons in *; lia|]. split; [exact Hbrest|].
+    eapply reaches_trans; [exact Hfirst|].
+    replace (sadd s (flatten_members ((k, true, t1) :: ms) ++ [EObjEnd]))
+      with (sadd (sadd (sadd s [EKeyRef k]) (flatten t1)) (flatten_members ms ++ [EObjEnd])).
+    2:{ rewrite !sadd_app, flatten_members_cons. cbn [key_event app]. rewrite <- app_assoc. reflexivity. }
+    apply reaches_step_then; [|exact Hreach].
+    apply ucontb_pos, nonempty_pos. intros ->.
+    eapply (obj_n_nonempty (uvalue f f) g (n - 1)); [|exact H]. lia.
+Qed.
+
+(* ---------- typed objects ---------- *)
+Definition tobj (p : uparser) (n : Z) (stp : Z) (st : ustate) (bt : btype) : uparser :=
+  ul_push (hdr p tObjectTyped stp st bt) n.
+
+Lemma tobj_stack p n stp st bt : u_t (up_cur p) <> tFail -> (zlen (up_stack (tobj p n stp st bt)) =? 0) = false.
+Proof. intro H. exact (push_stack_nonempty p (mku tObjectTyped stp) H). Qed.
+
+Lemma tobj_uctx p n stp st bt : uctx p -> u_t st <> tFail -> uctx (tobj p n stp st bt).
+Proof.
+  intros (H1 & H2 & H3 & H4) Hst. split; [exact H1|]. split; [exact H2|]. split; [discriminate|].
+  intro H. exfalso. apply Hst. exact H.
+Qed.
+
+Lemma uexec_tobj p n stp st bt s b :
+  (stp =? sStart) || (stp =? sWithType0) || (stp =? sWithType1) = false ->
+  uexec_step (tobj p n stp st bt) s b = ufix (ocwrap true (ustep_obj_content (tobj p n stp st bt) s b true)).
+Proof. intro H. rewrite uexec_step_eq. apply ex_objtyped; [reflexivity|exact H]. Qed.
+
+Lemma tobj_fieldname p n st bt s b klen r1 : up_buf p = [] -> up_marker p = 0 -> (n =? 0) = false ->
+  ubj_len b = LVal klen r1 ->
+  uexec_step (tobj p n sFieldName st bt) s b = UR (ul_push (tobj p n sFieldNameLen st bt) klen) s r1 false unilE.
+Proof.
+  intros Hbuf Hmk Hn Hl. rewrite uexec_tobj by reflexivity.
+  rewrite (oc_fieldname _ s b true klen r1) by (try reflexivity; assumption). reflexivity.
+Qed.
+
+Lemma tobj_key p n st bt s klen r1 key r2 : up_buf p = [] -> s_fail s = None -> take klen r1 = Some (key, r2) ->
+  uexec_step (ul_push (tobj p n sFieldNameLen st bt) klen) s r1 =
+  UR (tobj p n sCont st bt) (sadd s [EKeyRef key]) r2 false unilE.
+Proof.
+  intros Hbuf Hs Ht. rewrite uexec_step_eq, ex_objtyped by reflexivity.
+  rewrite (oc_fieldnamelen _ s r1 true key r2) by (try reflexivity; assumption).
+  cbn [ocwrap andb]. rewrite lpop_lpush. reflexivity.
+Qed.
+
+Lemma tobj_push p n st bt s b :
+  uexec_step (tobj p n sCont st bt) s b = UR (u_push (tobj p (n - 1) sFieldName st bt) st) s b false unilE.
+Proof. rewrite uexec_tobj by reflexivity. rewrite oc_push by reflexivity. reflexivity. Qed.
+
+Lemma tobj_close p st bt s b : uctx p -> s_fail s = None ->
+  uexec_step (tobj p 0 sFieldName st bt) s b = after_val (uset_vtype p bt) (sadd s [EObjEnd]) b.
+Proof.
+  intros Hp Hs. rewrite uexec_tobj by reflexivity. rewrite oc_close by (try reflexivity; exact Hs).
+  cbn [ocwrap andb]. rewrite unil_nil. unfold tobj. rewrite typed_close by exact Hp. reflexivity.
+Qed.
+
+Lemma obj_typed_loop f t st : payload_spec f -> is_value_marker t = true -> marker_state t = Some st ->
+  forall g n b acc v rest,
+  obj_n (ubj_payload f t) g n b acc = RValue v rest -> 0 < n -> all_bytes b = true ->
+  forall p s bt, uctx p -> s_fail s = None ->
+  exists ms m vt, v = CObj (rev acc ++ map mval ms) /\
+    forallb mwf ms = true /\ zlen ms = n /\ budget (m + 1) b rest /\ all_bytes rest = true /\
+    reaches (uexec_step (tobj p n sFieldName st bt) s b)
+            (after_val (uset_vtype p vt) (sadd s (flatten_members ms ++ [EObjEnd])) rest) m.
+Proof.
+  intros Hspec Hm Hst.
+  assert (Hst1 : u_t st <> tFail).
+  { destruct (marker_state_type _ _ Hst) as [E|[E|[E|[E|E]]]]; rewrite E; discriminate. }
+  induction g as [|g IH]; intros n b acc v rest H Hn Hb p s bt Hp Hs.
+  { rewrite obj_n_O in H. destruct (n <=? 0) eqn:E; [lia|discriminate]. }
+  rewrite obj_n_S in H. destruct (n <=? 0) eqn:E; [lia|]. clear E.
+  pose proof Hp as (Hbuf & Hmk & Hcur & Hv).
+  assert (En : (n =? 0) = false) by lia.
+  destruct (ukey_cases b) as [(k & r2 & Hk)|(e & Hk & He)];
+    rewrite Hk in H; [|exfalso; destruct e; try discriminate; eapply He; reflexivity].
+  destruct (ukey_inv _ _ _ Hk) as (klen & r1 & Hl & Ht).
+  destruct (ubj_payload f t r2) as [v1 r3| | |] eqn:Hv1; try discriminate.
+  destruct (ubj_len_facts _ _ _ Hl Hb) as (Hbr1 & Hk0 & Hlen & Hz).
+  destruct (take_bytes _ _ _ _ Ht Hbr1) as [Hbk Hbr2].
+  pose proof (take_some _ _ _ _ Ht) as (_ & Hkl & _ & _ & Hr1 & _).
+  pose proof (ztc_take _ _ _ _ Ht) as Hz2.
+  set (C := tobj p (n - 1) sFieldName st bt).
+  assert (HC : uctx C) by (apply tobj_uctx; assumption).
+  destruct (Hspec t st r2 v1 r3 Hv1 Hm Hst Hbr2 C (sadd s [EKeyRef k]) HC ltac:(rewrite sadd_fail; exact Hs))
+    as (t1 & n1 & vt1 & Hwf1 & _ & Hcv1 & Hbud1 & Hbr3 & _ & Hreach1).
+  unfold C in Hreach1.
+  change (uset_vtype (tobj p (n - 1) sFieldName st bt) vt1) with (tobj p (n - 1) sFieldName st vt1) in Hreach1.
+  rewrite after_val_ne in Hreach1 by (apply tobj_stack; exact Hcur).
+  assert (Hfirst : reaches (uexec_step (tobj p n sFieldName st bt) s b)
+            (UR (tobj p (n - 1) sFieldName st vt1) (sadd (sadd s [EKeyRef k]) (flatten t1)) r3 false unilE)
+            (1 + (1 + (1 + n1)))).
+  { rewrite (tobj_fieldname p n st bt s b klen r1) by assumption.
+    apply reaches_step_then.
+    { destruct (klen =? 0) eqn:Ek.
+      - apply ucontb_can. assert (klen = 0) as -> by lia. reflexivity.
+      - apply ucontb_pos. lia. }
+    rewrite (tobj_key p n st bt s klen r1 k r2) by assumption.
+    apply reaches_step_then; [apply ucontb_can; reflexivity|].
+    rewrite tobj_push.
+    apply reaches_step_then; [|exact Hreach1].
+    destruct (zpay t) as [|z] eqn:Ez.
+    - apply ucontb_can.
+      assert (Hz0 : is_zero_sized st = true) by (apply (zero_sized_marker t); assumption).
+      unfold can_step_without_input. change (up_cur (u_push (tobj p (n - 1) sFieldName st bt) st)) with st.
+      unfold is_zero_sized in Hz0. apply andb_true_iff in Hz0 as [Hz1 Hz2']. rewrite Hz1.
+      unfold is_zero_sized. rewrite Hz1, Hz2'. reflexivity.
+    - apply ucontb_pos, nonempty_pos. intros ->. pose proof (payload_nonempty _ _ _ _ Hv1 Hm). lia. }
+  assert (Hbytes : zlen r2 + 2 <= zlen b).
+  { rewrite Hr1 in Hlen. rewrite zlen_app in Hlen. pose proof (zlen_nonneg k). lia. }
+  destruct (n - 1 =? 0) eqn:En1.
+  - assert (n = 1) by lia. subst n. change (1 - 1) with 0 in *.
+    rewrite obj_n_zero in H. inversion H; subst v rest; clear H.
+    exists [(k, true, t1)], ((1 + (1 + (1 + n1))) + (1 + 0))%nat, vt1.
+    split; [cbn [rev map]; unfold mval; cbn [fst snd]; rewrite Hcv1; reflexivity|].
+    split; [cbn [forallb]; unfold mwf; cbn [fst snd]; rewrite Hbk, Hwf1; reflexivity|]. split; [reflexivity|].
+    split; [unfold budget in *; lia|]. split; [exact Hbr3|].
+    eapply reaches_trans; [exact Hfirst|].
+    apply reaches_step_then; [apply ucontb_can; reflexivity|].
+    apply reaches_eq. rewrite tobj_close by (try exact Hp; rewrite !sadd_fail; exact Hs).
+    rewrite !sadd_app, flatten_members_cons. cbn [key_event flatten_members flat_map app].
+    rewrite app_nil_r. reflexivity.
+  - destruct (IH (n - 1) r3 ((k, v1) :: acc) v rest H ltac:(lia) Hbr3 p
+                (sadd (sadd s [EKeyRef k]) (flatten t1)) vt1
+                Hp ltac:(rewrite !sadd_fail; exact Hs))
+      as (ms & m' & vt & Hv' & Hwf & Hlen' & Hbud & Hbrest & Hreach).
+    exists ((k, true, t1) :: ms), ((1 + (1 + (1 + n1))) + (1 + m'))%nat, vt.
+    split; [rewrite Hv'; cbn [rev map]; rewrite <- app_assoc; unfold mval at 2; cbn [fst snd]; rewrite Hcv1; reflexivity|].
+    split; [cbn [forallb]; unfold mwf at 1; cbn [fst snd]; rewrite Hbk, Hwf1, Hwf; reflexivity|].
+    split; [rewrite zlen_cons; lia|].
+    split; [unfold budget in *; lia|]. split; [exact Hbrest|].
+    eapply reaches_trans; [exact Hfirst|].
+    replace (sadd s (flatten_members ((k, true, t1) :: ms) ++ [EObjEnd]))
+      with (sadd (sadd (sadd s [EKeyRef k]) (flatten t1)) (flatten_members ms ++ [EObjEnd])).
+    2:{ rewrite !sadd_app, flatten_members_cons. cbn [key_event app]. rewrite <- app_assoc. reflexivity. }
+    apply reaches_step_then; [|exact Hreach].
+    apply ucontb_pos, nonempty_pos. intros ->.
+    eapply (obj_n_nonempty (ubj_payload f t) g (n - 1)); [|exact H]. lia.
+Qed.
+
+(* ---------- the object payload ---------- *)
+Lemma pl_obj_typed' f t c r2 :
+  ubj_payload (S f) mObjS (mType :: t :: c :: r2) =
+  if negb (is_value_marker t) then RMalformed else
+  if negb (c =? mCount) then RMalformed else
+  match ubj_len r2 with
+  | LTrunc => RTruncated
+  | LBad => RMalformed
+  | LVal n r3 => obj_n (ubj_payload f t) (f + Z.to_nat (Z.min n 100001))%nat n r3 []
+  end.
+Proof. reflexivity. Qed.
+
+Lemma wf_obj_intro n ms : n < 0 \/ n = zlen ms -> forallb mwf ms = true -> wf_tree (TObj n BAny ms) = true.
+Proof.
+  intros Hn Hw. rewrite wf_obj. unfold mwf in Hw. rewrite Hw.
+  assert (forallb (fun m : bytes * bool * tree => tree_matches BAny (snd m)) ms = true) as ->
+    by (apply forallb_forall; reflexivity).
+  unfold len_ok. destruct Hn; lia.
+Qed.
+
+Lemma cv_obj n ms : cv (value_of (TObj n BAny ms)) = CObj (map mval ms).
+Proof. cbn [value_of cv]. rewrite map_map. reflexivity. Qed.
+
+Lemma object_goal f b v rest p s : payload_spec f ->
+  ubj_payload (S f) mObjS b = RValue v rest -> all_bytes b = true -> uctx p -> s_fail s = None ->
+  pgoal mObjS (mku tObject sStart) b v rest p s.
+Proof.
+  intros Hspec H Hb Hp Hs. pose proof Hp as (Hbuf & Hmk & Hcur & Hv).
+  destruct b as [|h r]; [discriminate|].
+  pose proof Hb as Hb'. rewrite all_bytes_cons in Hb'. apply andb_true_iff in Hb' as [_ Hbr].
+  set (q0 := u_push p (mku tObject sStart)).
+  assert (Hq0 : forall s0 b0, uexec_step q0 s0 b0 = ufix
+    match b0 with
+    | [] => UCrash 17
+    | x :: r =>
+        if x =? mCount then UR (u_push p (mku tObjectCount sStart)) s0 r false unilE
+        else if x =? mType then UR (u_push p (mku tObjectTyped sStart)) s0 r false unilE
+        else let '(s1, e) := uvis s0 (EObjStart (-1) BAny) in UR (odyn p sStart) s1 b0 false e
+    end).
+  { intros s0 b0. rewrite uexec_step_eq, ex_object by reflexivity. reflexivity. }
+  unfold pgoal. fold q0. rewrite Hq0. change (zpay mObjS) with 2%nat.
+  destruct (h =? mType) eqn:Ety.
+  { (* typed *)
+    assert (h = mType) by lia. subst h. change (mType =? mCount) with false. cbv iota.
+    destruct r as [|t [|c r2]]; try discriminate H.
+    { exfalso. revert H. change (ubj_payload (S f) mObjS [mType; t]) with
+        (if negb (is_value_marker t) then RMalformed else RTruncated).
+      destruct (negb (is_value_marker t)); discriminate. }
+    rewrite pl_obj_typed' in H.
+    destruct (is_value_marker t) eqn:Hm; [|discriminate]. cbn [negb] in H.
+    destruct (c =? mCount) eqn:Ec; [|discriminate]. cbn [negb] in H.
+    assert (c = mCount) by lia. subst c.
+    destruct (ubj_len r2) as [n r3| |] eqn:Hl; try discriminate.
+    destruct (marker_state_value t Hm) as (st & Hst).
+    assert (Hbr2 : all_bytes r2 = true).
+    { rewrite !all_bytes_cons in Hbr. apply andb_true_iff in Hbr as [_ Hbr].
+      apply andb_true_iff in Hbr as [_ Hbr]. exact Hbr. }
+    destruct (ubj_len_facts _ _ _ Hl Hbr2) as (Hbr3 & Hn0 & Hlen & Hz).
+    pose proof (typed_header tObjectTyped p s t r2 n r3 st (or_intror eq_refl) Hp Hm Hst Hl) as Hhdr.
+    set (bt := marker_btype t) in *.
+    assert (Hztc : ztc r3 <= ztc (mType :: t :: mCount :: r2)).
+    { pose proof (ztc_cons_ge mType (t :: mCount :: r2)).
+      pose proof (ztc_cons_ge t (mCount :: r2)). pose proof (ztc_cons_ge mCount r2). lia. }
+    change (ul_push (hdr p tObjectTyped sWithLen st bt) n) with (tobj p n sWithLen st bt) in Hhdr.
+    destruct (n =? 0) eqn:En.
+    - assert (n = 0) by lia. subst n. rewrite obj_n_zero in H. inversion H; subst v rest; clear H.
+      exists (TObj 0 BAny []), (3 + (1 + 0))%nat, bt.
+      split; [reflexivity|]. split; [reflexivity|]. split; [reflexivity|].
+      split; [unfold budget; rewrite !zlen_cons; lia|]. split; [exact Hbr3|].
+      rewrite ufix_ok. split; [apply vwrap_nd|].
+      eapply reaches_trans; [exact Hhdr|].
+      apply reaches_step_then; [apply ucontb_can; reflexivity|].
+      apply reaches_eq. rewrite uexec_tobj by reflexivity.
+      rewrite oc_withlen_zero by (try reflexivity; exact Hs).
+      cbn [ocwrap andb]. rewrite unil_nil. unfold tobj. rewrite typed_close by exact Hp. reflexivity.
+    - destruct (obj_typed_loop f t st Hspec Hm Hst _ n r3 [] v rest H ltac:(lia) Hbr3 p
+                  (sadd s [EObjStart n BAny]) bt Hp ltac:(rewrite sadd_fail; exact Hs))
+        as (ms & m & vt & Hv' & Hwf & Hlen' & Hbud & Hbrest & Hreach).
+      exists (TObj n BAny ms), (3 + (1 + m))%nat, vt.
+      split; [apply wf_obj_intro; [right; lia|exact Hwf]|]. split; [reflexivity|].
+      split; [rewrite cv_obj, Hv'; reflexivity|].
+      split; [unfold budget in *; rewrite !zlen_cons; lia|]. split; [exact Hbrest|].
+      rewrite ufix_ok. split; [apply vwrap_nd|].
+      eapply reaches_trans; [exact Hhdr|].
+      rewrite flatten_obj.
+      replace (sadd s (EObjStart n BAny :: flatten_members ms ++ [EObjEnd]))
+        with (sadd (sadd s [EObjStart n BAny]) (flatten_members ms ++ [EObjEnd]))
+        by (rewrite sadd_app; reflexivity).
+      apply reaches_step_then.
+      { apply ucontb_pos, nonempty_pos. intros ->.
+        eapply (obj_n_nonempty (ubj_payload f t) _ n); [|exact H]. lia. }
+      rewrite uexec_tobj by reflexivity.
+      rewrite oc_withlen by (try reflexivity; try exact Hs; exact En).
+      rewrite <- (uexec_tobj p n sFieldName st bt) by reflexivity. exact Hreach. }
+  destruct (h =? mCount) eqn:Ecn.
+  { (* counted *)
+    assert (h = mCount) by lia. subst h. rewrite pl_obj_counted in H.
+    destruct (ubj_len r) as [n r1| |] eqn:Hl; try discriminate.
+    destruct (ubj_len_facts _ _ _ Hl Hbr) as (Hbr1 & Hn0 & Hlen & Hz).
+    assert (Hlenstep : uexec_step (u_push p (mku tObjectCount sStart)) s r =
+              UR (ocnt p n sWithLen) s r1 false unilE).
+    { rewrite uexec_step_eq, ex_objcount_start by reflexivity.
+      rewrite (ustep_len_ok _ r _ n r1) by assumption. reflexivity. }
+    assert (Hr : 0 < zlen r).
+    { destruct (ubj_len_rest _ _ _ Hl) as (pre & -> & Hpre). rewrite zlen_app. pose proof (zlen_nonneg r1). lia. }
+    rewrite ufix_ok.
+    destruct (n =? 0) eqn:En.
+    - assert (n = 0) by lia. subst n. rewrite obj_n_zero in H. inversion H; subst v rest; clear H.
+      exists (TObj 0 BAny []), (1 + (1 + 0))%nat, (up_vtype p).
+      split; [reflexivity|]. split; [reflexivity|]. split; [reflexivity|].
+      split; [unfold budget; rewrite !zlen_cons; pose proof (ztc_cons_ge mCount r); lia|]. split; [exact Hbr1|].
+      split; [apply vwrap_nd|].
+      apply reaches_step_then; [apply ucontb_pos; exact Hr|]. rewrite Hlenstep.
+      apply reaches_step_then; [apply ucontb_can; reflexivity|].
+      apply reaches_eq. rewrite uexec_ocnt by reflexivity.
+      rewrite oc_withlen_zero by (try reflexivity; exact Hs).
+      cbn [ocwrap andb]. rewrite unil_nil. unfold upop_len_state, ocnt.
+      rewrite lpop_lpush, upop_state_push by exact Hcur. rewrite vtype_id. reflexivity.
+    - destruct (obj_cnt_loop f Hspec f n r1 [] v rest H ltac:(lia) Hbr1 p
+                  (sadd s [EObjStart n BAny]) Hp ltac:(rewrite sadd_fail; exact Hs))
+        as (ms & m & vt & Hv' & Hwf & Hlen' & Hbud & Hbrest & Hreach).
+      exists (TObj n BAny ms), (1 + (1 + m))%nat, vt.
+      split; [apply wf_obj_intro; [right; lia|exact Hwf]|]. split; [reflexivity|].
+      split; [rewrite cv_obj, Hv'; reflexivity|].
+      split; [unfold budget in *; rewrite !zlen_cons; pose proof (ztc_cons_ge mCount r); lia|].
+      split; [exact Hbrest|]. split; [apply vwrap_nd|].
+      apply reaches_step_then; [apply ucontb_pos; exact Hr|]. rewrite Hlenstep.
+      rewrite flatten_obj.
+      replace (sadd s (EObjStart n BAny :: flatten_members ms ++ [EObjEnd]))
+        with (sadd (sadd s [EObjStart n BAny]) (flatten_members ms ++ [EObjEnd]))
+        by (rewrite sadd_app; reflexivity).
+      apply reaches_step_then.
+      { apply ucontb_pos, nonempty_pos. intros ->.
+        eapply (obj_n_nonempty (uvalue f f) f n); [|exact H]. lia. }
+      rewrite uexec_ocnt by reflexivity.
+      rewrite oc_withlen by (try reflexivity; try exact Hs; exact En).
+      rewrite <- (uexec_ocnt p n sFieldName) by reflexivity. exact Hreach. }
+  (* plain *)
+  rewrite pl_obj_plain in H by assumption.
+  destruct (obj_plain_loop f Hspec f (h :: r) [] v rest H Hb p (sadd s [EObjStart (-1) BAny]) Hp
+              ltac:(rewrite sadd_fail; exact Hs))
+    as (ms & n & vt & Hv' & Hwf & Hbud & Hbrest & Hreach).
+  exists (TObj (-1) BAny ms), (1 + n)%nat, vt.
+  split; [apply wf_obj_intro; [left; lia|exact Hwf]|]. split; [reflexivity|].
+  split; [rewrite cv_obj, Hv'; reflexivity|].
+  split; [unfold budget in *; lia|]. split; [exact Hbrest|].
+  rewrite uvis_ok by exact Hs. rewrite ufix_ok. split; [apply vwrap_nd|].
+  rewrite flatten_obj.
+  replace (sadd s (EObjStart (-1) BAny :: flatten_members ms ++ [EObjEnd]))
+    with (sadd (sadd s [EObjStart (-1) BAny]) (flatten_members ms ++ [EObjEnd]))
+    by (rewrite sadd_app; reflexivity).
+  apply reaches_step_then; [apply ucontb_nonempty|exact Hreach].
+Qed.
+
+(* ====================================================================== *)
+(* Part 10: every value, in any context                                     *)
+(* ====================================================================== *)
+
+Theorem payload_ok : forall f, payload_spec f.
+Proof.
+  induction f as [|f IH]; intros m st b v rest H Hm Hst Hb p s Hp Hs; [discriminate|].
+  pose proof (value_marker_cases m Hm) as Hc.
+  destruct Hc as [->|Hc].
+  { inversion Hst; subst st. rewrite pl_Z in H. inversion H; subst v rest.
+    apply (zero_goal mZ sNil (TVal SNil false));
+      [reflexivity|left; repeat split; reflexivity|reflexivity|assumption..]. }
+  destruct Hc as [->|Hc].
+  { inversion Hst; subst st. rewrite pl_T in H. inversion H; subst v rest.
+    apply (zero_goal mT sTrue (TVal (SBool true) false));
+      [reflexivity|right; left; repeat split; reflexivity|reflexivity|assumption..]. }
+  destruct Hc as [->|Hc].
+  { inversion Hst; subst st. rewrite pl_F in H. inversion H; subst v rest.
+    apply (zero_goal mF sFalse (TVal (SBool false) false));
+      [reflexivity|right; right; repeat split; reflexivity|reflexivity|assumption..]. }
+  destruct Hc as [->|Hc]. { inversion Hst; subst st. eapply fixed_goal; [apply row_i|eassumption..]. }
+  destruct Hc as [->|Hc]. { inversion Hst; subst st. eapply fixed_goal; [apply row_U|eassumption..]. }
+  destruct Hc as [->|Hc]. { inversion Hst; subst st. eapply fixed_goal; [apply row_I|eassumption..]. }
+  destruct Hc as [->|Hc]. { inversion Hst; subst st. eapply fixed_goal; [apply row_l|eassumption..]. }
+  destruct Hc as [->|Hc]. { inversion Hst; subst st. eapply fixed_goal; [apply row_L|eassumption..]. }
+  destruct Hc as [->|Hc]. { inversion Hst; subst st. eapply fixed_goal; [apply row_d|eassumption..]. }
+  destruct Hc as [->|Hc]. { inversion Hst; subst st. eapply fixed_goal; [apply row_D|eassumption..]. }
+  destruct Hc as [->|Hc].
+  { inversion Hst; subst st. eapply (string_goal mH tHighPrec); [right; split; reflexivity|eassumption..]. }
+  destruct Hc as [->|Hc]. { inversion Hst; subst st. eapply fixed_goal; [apply row_C|eassumption..]. }
+  destruct Hc as [->|Hc].
+  { inversion Hst; subst st. eapply (string_goal mS tString); [left; split; reflexivity|eassumption..]. }
+  destruct Hc as [->| ->].
+  { inversion Hst; subst st. eapply object_goal; eassumption. }
+  { inversion Hst; subst st. eapply array_goal; eassumption. }
+Qed.
+Print Assumptions payload_ok.
+
+(* ====================================================================== *)
+(* Part 11: whole-buffer Parse, accepted inputs (C06, C09)                  *)
+(* ====================================================================== *)
+
+Lemma uctx_top : uctx uparser0.
+Proof.
+  split; [reflexivity|]. split; [reflexivity|]. split; [discriminate|].
+  intros _. split; reflexivity.
+Qed.
+
+Lemma ubj_value_S f m r : ubj_value (S f) (m :: r) =
+  if m =? mN then ubj_value f r
+  else if is_value_marker m then ubj_payload (S (length (m :: r))) m r else RMalformed.
+Proof. reflexivity. Qed.
+
+Lemma top_value : forall g b v rest, ubj_value g b = RValue v rest -> all_bytes b = true ->
+  forall s, s_fail s = None ->
+  exists t n vt, wf_tree t = true /\ cv (value_of t) = v /\
+    Z.of_nat n + 3 * zlen rest + ztc rest <= 3 * zlen b + ztc b /\ all_bytes rest = true /\
+    reaches (uexec_step uparser0 s b)
+            (UR (uset_vtype uparser0 vt) (sadd s (flatten t)) rest true unilE) n.
+Proof.
+  induction g as [|g IH]; intros b v rest H Hb s Hs; [discriminate|].
+  destruct b as [|m r]; [discriminate|]. rewrite ubj_value_S in H.
+  pose proof Hb as Hb'. rewrite all_bytes_cons in Hb'. apply andb_true_iff in Hb' as [_ Hbr].
+  assert (Hex : uexec_step uparser0 s (m :: r) = ufix (ustep_value uparser0 s (m :: r))).
+  { rewrite uexec_step_eq. apply ex_next. reflexivity. }
+  destruct (m =? mN) eqn:EN.
+  - assert (m = mN) by lia. subst m.
+    destruct (IH r v rest H Hbr s Hs) as (t & n & vt & Hwf & Hcv & Hbud & Hbrest & Hreach).
+    exists t, (1 + n)%nat, vt. split; [exact Hwf|]. split; [exact Hcv|].
+    split; [rewrite zlen_cons; pose proof (ztc_cons_ge mN r); lia|]. split; [exact Hbrest|].
+    rewrite Hex, ustep_value_noop, ufix_ok.
+    apply reaches_step_then; [|exact Hreach].
+    apply ucontb_pos, nonempty_pos. intros ->. destruct g; discriminate.
+  - destruct (is_value_marker m) eqn:Hm; [|discriminate].
+    destruct (value_of_payload _ m r v rest uparser0 s (payload_ok _) H Hm Hbr uctx_top Hs)
+      as (t & n & vt & Hwf & _ & Hcv & Hbud & Hbrest & Hreach).
+    exists t, n, vt. split; [exact Hwf|]. split; [exact Hcv|].
+    split; [unfold budget in Hbud; lia|]. split; [exact Hbrest|].
+    change (vwrap uparser0 (ustep_value uparser0 s (m :: r))) with (ustep_value uparser0 s (m :: r)) in Hreach.
+    change (after_val (uset_vtype uparser0 vt) (sadd s (flatten t)) rest)
+      with (UR (uset_vtype uparser0 vt) (sadd s (flatten t)) rest true unilE) in Hreach.
+    rewrite Hex, (ufix_reaches _ _ _ _ _ _ Hreach). exact Hreach.
+Qed.
+
+Lemma ufeed_S f p s b : ufeed (S f) p s b =
+  if zlen b >? 0 then
+    match ufeed_until (ufeed_fuel p b) p s b with
+    | Ok (UR p1 s1 rest _ err) => if unil err then ufeed f p1 s1 rest else Ok (p1, s1, err)
+    | Ok (UCrash w) => Panic w
+    | Err e => Err e | Panic w => Panic w | OutOfFuel => OutOfFuel
+    end
+  else Ok (p, s, unilE).
+Proof. reflexivity. Qed.
+
+Theorem C06_accept : forall b v, all_bytes b = true -> (zlen b <=? 9223372036854775807) = true ->
+  no_huge_zero_typed b = true ->
+  ubj_decode b = RValue v [] ->
+  exists evs t p, urun_parse None b = Ok (evs, unilE, p) /\ stream_tree evs = Some t /\
+                  wf_tree t = true /\ cv (value_of t) = v.
+Proof.
+  intros b v Hb _ Hz H. unfold ubj_decode in H. unfold no_huge_zero_typed in Hz.
+  destruct (top_value _ b v [] H Hb (sink0 None) eq_refl) as (t & n & vt & Hwf & Hcv & Hbud & _ & Hreach).
+  change (zlen (@nil Z)) with 0 in Hbud. rewrite ztc_nil in Hbud.
+  assert (Hne : b <> []) by (intros ->; discriminate H).
+  exists (flatten t), (norm t), (uset_vtype uparser0 vt).
+  split.
+  - unfold urun_parse, up_parse.
+    replace (2 * length b + 2)%nat with (S (S (2 * length b))) by lia.
+    rewrite ufeed_S. destruct (zlen b >? 0) eqn:Ez; [|pose proof (nonempty_pos b Hne); lia].
+    set (F := ufeed_fuel uparser0 b).
+    assert (HF : (n + 1 <= F)%nat).
+    { unfold F, ufeed_fuel. change (length (up_stack uparser0)) with 0%nat.
+      assert (HK : Z.of_nat 8000 = 8000) by (vm_compute; reflexivity).
+      unfold zlen in *. lia. }
+    replace F with (S (n + (F - S n)))%nat by lia.
+    rewrite ufeed_until_S, Hreach. cbn [ufu_cont orb]. rewrite unil_nil.
+    rewrite ufeed_S. change (zlen (@nil Z) >? 0) with false. cbv iota. rewrite unil_nil.
+    change (ufin (uset_vtype uparser0 vt) (sadd (sink0 None) (flatten t)))
+      with (uset_vtype uparser0 vt, sadd (sink0 None) (flatten t), unilE).
+    cbv beta iota. rewrite sadd_log. reflexivity.
+  - split; [apply stream_tree_flatten|]. split; [rewrite wf_norm; exact Hwf|].
+    rewrite value_of_norm. exact Hcv.
+Qed.
+Print Assumptions C06_accept.
+
+Corollary C09_ubj_parser : forall b v, all_bytes b = true -> (zlen b <=? 9223372036854775807) = true ->
+  no_huge_zero_typed b = true ->
+  ubj_decode b = RValue v [] ->
+  exists evs p, urun_parse None b = Ok (evs, unilE, p) /\ contract_ok evs = true.
+Proof.
+  intros b v Hb Hsz Hz H. destruct (C06_accept b v Hb Hsz Hz H) as (evs & t & p & Hrun & Hst & Hwf & _).
+  exists evs, p. split; [exact Hrun|]. unfold contract_ok. rewrite Hst. exact Hwf.
+Qed.
+Print Assumptions C09_ubj_parser.
+
+(* ====================================================================== *)
+(* Part 12: the scope of an announced element type (C06_scope)              *)
+(* ====================================================================== *)
+
+(* the parser states p and p' agree on everything the type/count machinery uses:
+   state stack, valueState stack (the element type of the enclosing optimized
+   containers) and length stack *)
+Definition same_stacks (p p' : uparser) : Prop :=
+  up_cur p' = up_cur p /\ up_stack p' = up_stack p /\
+  up_vcur p' = up_vcur p /\ up_vstack p' = up_vstack p /\
+  up_lcur p' = up_lcur p /\ up_lstack p' = up_lstack p /\
+  up_buf p' = up_buf p /\ up_marker p' = up_marker p /\ up_err p' = up_err p.
+
+Lemma same_stacks_vtype p vt : same_stacks p (uset_vtype p vt).
+Proof. repeat split. Qed.
+
+(* One value (marker m, payload r) read by stepValue in ANY parser context p
+   (top level, inside plain / counted / typed containers at any depth): the
+   parser emits the events of a well-formed tree with the reference value and
+   comes back to exactly the context it started from: in particular the
+   element type state (up_vcur / up_vstack) of the enclosing typed containers
+   is what it was before the value - a typed container nested in the value
+   has restored it when it closed. *)
+Theorem C06_scope : forall f m r v rest p s,
+  ubj_payload f m r = RValue v rest -> is_value_marker m = true -> all_bytes r = true ->
+  uctx p -> s_fail s = None ->
+  exists t n p', wf_tree t = true /\ cv (value_of t) = v /\ all_bytes rest = true /\
+    same_stacks p p' /\
+    reaches (vwrap p (ustep_value p s (m :: r)))
+            (UR p' (sadd s (flatten t)) rest (zlen (up_stack p) =? 0) unilE) n.
+Proof.
+  intros f m r v rest p s H Hm Hb Hp Hs.
+  destruct (value_of_payload f m r v rest p s (payload_ok f) H Hm Hb Hp Hs)
+    as (t & n & vt & Hwf & _ & Hcv & _ & Hbrest & Hreach).
+  exists t, n, (uset_vtype p vt). split; [exact Hwf|]. split; [exact Hcv|]. split; [exact Hbrest|].
+  split; [apply same_stacks_vtype|]. exact Hreach.
+Qed.
+Print Assumptions C06_scope.
+
+(* Inside an open typed array ([$t#n, n > 0 elements to go, enclosing context p,
+   element start state st = marker_state t): the next element is read as a
+   payload of type t - whatever it contains, including nested optimized
+   containers of other types -, its tree matches the announced BaseType, and the
+   parser is back in the same typed array with the count decremented and the
+   same element state. *)
+Theorem C06_scope_typed_elem : forall f t st n b v rest p bt s,
+  ubj_payload f t b = RValue v rest -> is_value_marker t = true -> marker_state t = Some st ->
+  0 < n -> all_bytes b = true -> uctx p -> s_fail s = None ->
+  exists tr k bt', wf_tree tr = true /\ tree_matches (marker_btype t) tr = true /\ cv (value_of tr) = v /\
+    all_bytes rest = true /\
+    up_vcur (tarr p (n - 1) st bt') = st /\ up_vstack (tarr p (n - 1) st bt') = up_vstack (tarr p n st bt) /\
+    up_lcur (tarr p (n - 1) st bt') = n - 1 /\
+    reaches (uexec_step (tarr p n st bt) s b)
+            (UR (tarr p (n - 1) st bt') (sadd s (flatten tr)) rest false unilE) k.
+Proof.
+  intros f t st n b v rest p bt s H Hm Hst Hn Hb Hp Hs.
+  assert (Hstt : u_t st <> tFail /\ u_t st <> tArrayTyped).
+  { destruct (marker_state_type _ _ Hst) as [E|[E|[E|[E|E]]]]; rewrite E; split; discriminate. }
+  destruct Hstt as [Hst1 Hst2]. pose proof Hp as (Hbuf & Hmk & Hcur & Hv).
+  assert (En : (n =? 0) = false) by lia.
+  set (C := tarr p (n - 1) st bt).
+  assert (HC : uctx C) by (apply tarr_uctx; assumption).
+  destruct (payload_ok f t st b v rest H Hm Hst Hb C s HC Hs)
+    as (t1 & n1 & vt1 & Hwf1 & Hmat1 & Hcv1 & _ & Hbr1 & Hnd1 & Hreach1).
+  rewrite vwrap_ne in Hnd1 by (apply tarr_stack; exact Hcur).
+  unfold C in Hreach1. rewrite tarr_vtype, after_val_ne in Hreach1 by (apply tarr_stack; exact Hcur).
+  exists t1, n1, vt1. split; [exact Hwf1|]. split; [exact Hmat1|]. split; [exact Hcv1|].
+  split; [exact Hbr1|]. split; [reflexivity|]. split; [reflexivity|]. split; [reflexivity|].
+  rewrite uexec_tarr, atyped_elem by exact En. rewrite uexec_fuel by exact Hst2.
+  fold C. rewrite Hnd1. unfold C. rewrite (ufix_reaches _ _ _ _ _ _ Hreach1). exact Hreach1.
+Qed.
+Print Assumptions C06_scope_typed_elem.
+
+(* ---------- the guard is needed: a typed array of 10000 nils in 7 bytes ---------- *)
+Definition is_accepted (r : ref_result) : bool := match r with RValue _ [] => true | _ => false end.
+Definition is_out_of_fuel {A} (r : res A) : bool := match r with OutOfFuel => true | _ => false end.
+
+Example huge_zero_typed_counterexample :
+  let b := [91; 36; 90; 35; 73; 39; 16] in     (* [$Z#I 10000 *)
+  no_huge_zero_typed b = false /\
+  is_accepted (ubj_decode b) = true /\
+  is_out_of_fuel (urun_parse None b) = true.
+Proof. cbv zeta. split; [vm_compute; reflexivity|]. split; vm_compute; reflexivity. Qed.
+
+Example small_zero_typed_ok :
+  let b := [91; 36; 84; 35; 105; 3] in           (* [$T#i 3 *)
+  no_huge_zero_typed b = true /\
+  ubj_decode b = RValue (CArr [CBool true; CBool true; CBool true]) [] /\
+  exists p, urun_parse None b =
+    Ok ([EArrStart 3 BBool; EVal (SBool true); EVal (SBool true); EVal (SBool true); EArrEnd], unilE, p).
+Proof. vm_compute. split; [reflexivity|]. split; [reflexivity|]. eexists; reflexivity. Qed.
